@@ -16,11 +16,16 @@ MANIFEST = {
             'is unchanged by stripping and the power-sum form used by __call__ equals Horner; degree = |strip a| - 1 and '
             'the oblivious degree formula (len - 1 - number of trailing zeros) equals it; coefficientwise equality test == '
             'decides equality of the stripped polynomials; length_bound_public: the padded length of add/sub/neg/scale/'
-            'mul/lshift/rshift/truncate results is a function of the operand lengths only. Every run ties this to /repo: '
+            'mul/lshift/rshift/truncate results is a function of the operand lengths only; powmod_correct: _powmod as coded '
+            '(square-and-multiply with the n = 1 reduction) over the Gfpx model\'s normal-form mul/mod returns, for every n >= 1, a '
+            'reduced normal form congruent to a^n modulo (p, b), by induction on the bit decomposition. Every run ties this to /repo: '
             'all operators and methods of secpoly are executed in the m-party simulator ((m,t)=(1,0),(3,1), PRSS on/off), '
             'opened and compared with gfpx polynomials (oracle) and, for the operations with theorems, with the Z_p '
             'instance of the Coq model on the padded arrays (vm_compute).',
-    'note': 'Oracle/correspondence-only (no Coq theorem): floordiv/mod/divmod, gcd, gcdext, invert, powmod/**, '
+    'note': 'The powmod theorem is about the normal-form model (Gfpx.mul, Gfpx.mod_nz; uniqueness of the remainder is not '
+            'machine-checked, the result is characterised as reduced and congruent) and is tied to secpoly.powmod by a '
+            'vm_compute stream on the opened results; the secure _div protocol itself is not modelled. '
+            'Oracle/correspondence-only (no Coq theorem): floordiv/mod/divmod, gcd, gcdext, invert, ** and negative powmod, '
             'is_irreducible, monic, reverse, lexicographic < <= > >=, if_else/if_swap, getitem, input/output; for these the '
             'opened result and its padded length are checked against gfpx and closed-form length functions on every case. '
             'Quick tier: GF(2) every pair of padded lists of length<=3 through every operation on m=1 (one public parameter '
@@ -29,8 +34,10 @@ MANIFEST = {
             'mpc.SecFld(p) is a prime field only while m < p, so GF(2)/GF(3) cannot be run with three parties. In the small-field '
             'region (some padded length >= p; documented "p must be sufficiently large") explicit errors are counted, not '
             'violations, and operations that may not terminate there are run on one representative each; silent wrong values, '
-            'hangs and escaped exceptions elsewhere are violations, confirmed in a fresh simulator before being reported. Nine '
-            'known findings (known_findings/C38.json), two of them defects of the gfpx oracle over GF(2) (evaluation and '
+            'hangs and escaped exceptions elsewhere are violations, confirmed in a fresh simulator before being reported. Open '
+            'known findings are listed in known_findings/C38.json (F-C38-2 getitem beyond the array and F-C38-10 powmod n=1 were '
+            'repaired in /repo and are ordinary cases again: f[i] with i >= padded length must give a secure 0 in the async '
+            'simulator with m=1 and m=3), two of the open ones are defects of the gfpx oracle over GF(2) (evaluation and '
             'reverse are then checked against independent references). Message-size traces are compared for two runs with equal '
             'padded lengths and different values on one batch (p=101, m=3, operations without retry loops). Trusted: Coq kernel, '
             'simulator, gfpx as the specification.',
@@ -485,8 +492,6 @@ def known_class(p, a, b, op, k, want):
         return 'zero-polynomial'          # F-C38-1: reciprocal(0) never terminates
     if op in ('gcd', 'gcdext') and not strip(a) and not strip(b or []) and max(len(a), len(b or [])) > 0:
         return 'zero-polynomial'          # F-C38-1
-    if op == 'getitem' and k >= len(a):
-        return 'index>=len'               # F-C38-2: IndexError raised asynchronously
     if op == 'is_irreducible' and za and len(a) >= 2:
         return 'zero-polynomial'          # F-C38-3: division by the zero modulus
     if p == 2 and (op.endswith('_pub') or op == 'scale') and op not in ('call_pub', 'reverse_pub'):
@@ -629,6 +634,7 @@ def run(ctx):
     plan.append((101, 3, 1, True, cases_for(rand_pairs(101, ctx.n(1, 40), 5), OPS, kmax=1), False))
 
     model_cases = []
+    powmod_cases = []
     precond = {}
     seen_cls = {}       # (class, op) -> number of representatives run
     lens_seen = {}      # (op, k, la, lb) -> {padded result lengths: witness}
@@ -693,7 +699,7 @@ def run(ctx):
             sf = small_field(p, a, bb, op, k)
             # keep the number of runs that end in a hang / escaped exception (each costs a simulator restart) small:
             # one representative per (known failing class, operation) and per small-field operation, on m=1 only
-            costly = (cls in ('zero-polynomial', 'index>=len', 'empty-operands', 'gf2-division')) or \
+            costly = (cls in ('zero-polynomial', 'empty-operands', 'gf2-division')) or \
                      (cls == 'gf2-public-operand' and op not in ('add_pub', 'radd_pub', 'sub_pub', 'rsub_pub', 'mul_pub', 'rmul_pub', 'scale')) or \
                      (sf and op in HANG_PRONE)
             if costly:
@@ -742,6 +748,8 @@ def run(ctx):
                 ctx.case(key, nontrivial=padded or op not in RING, kind=kind)
                 if op in MODEL_OPS and got[0] in ('poly', 'elt') and (op != 'scale' or p != 2):
                     model_cases.append((op, p, a, b, k, got[1]))
+                if op == 'powmod' and k >= 0 and p != 2 and got[0] == 'poly' and strip(b):
+                    powmod_cases.append((op, p, a, b, k, got[1]))
         if exhaustive:
             exhaustive_done.append('GF(%d) m=%d: %d cases' % (p, m, len(todo)))
         ctx.log('GF(%d) m=%d t=%d no_prss=%s: %d cases in %.1fs' % (p, m, t, no_prss, len(todo), time.time() - t1))
@@ -755,8 +763,9 @@ def run(ctx):
                          'precondition, not violations), class: count = %s' % dict(sorted(precond.items())[:80]))
 
     malformed_stream(ctx)
+    sync_mode_getitem(ctx)
     traffic_independence(ctx)
-    model_compare(ctx, ok, model_cases)
+    model_compare(ctx, ok, model_cases, powmod_cases)
     if ctx.broken and not ctx.violations:
         ctx.unproved('C38 model/proof', {'broken': ctx.broken[:5]})
 
@@ -795,6 +804,45 @@ def malformed_stream(ctx):
             ctx.violation('secpoly-malformed %s' % c, {'case': c, 'got': r, 'want': w})
 
 
+def sync_mode_getitem(ctx):
+    """The simulator always runs the asynchronous mode (-M1 / m>1).  f[i] with i beyond the coefficient array is also
+    run in the default synchronous single-party mode (no -M option): a fresh in-process copy of mpyc, mpc.run()."""
+    import sys, importlib
+    for k in [k for k in sys.modules if k == 'mpyc' or k.startswith('mpyc.')]:
+        del sys.modules[k]
+    argv = sys.argv
+    sys.argv = ['c38-sync', '--no-log']
+    try:
+        rt = importlib.import_module('mpyc.runtime')
+        mpc = rt.mpc
+        np = importlib.import_module('mpyc.numpy').np
+        secpoly = importlib.import_module('mpyc.secpols').secpoly
+        for p in (5, 101):
+            secfld = mpc.SecFld(p)
+            for a in ([], [3], [1, 2, 0], [0, 0, 0, 4]):
+                f = secpoly(np.array(a, dtype=object), sectype=secfld)
+                for i in (0, len(a) - 1, len(a), len(a) + 1, 9):
+                    if i < 0:
+                        continue
+                    key = {'sync': True, 'p': p, 'a': a, 'i': i}
+                    try:
+                        v = f[i]
+                        got = int(mpc.run(mpc.output(v))) % p
+                        okt = isinstance(v, secfld)
+                    except Exception as e:
+                        got, okt = ('EXC', type(e).__name__), True
+                    want = a[i] if i < len(a) else 0
+                    ctx.case(key, nontrivial=i >= len(a), kind='getitem sync mode GF(%d)' % p)
+                    if got != want or not okt:
+                        ctx.violation('secpoly-getitem sync-mode GF(%d) len=%d i=%d' % (p, len(a), i),
+                                      dict(key, got=got, want=want, secure_type_ok=okt, mode_no_async=bool(mpc.options.no_async)))
+        ctx.extra['sync_mode_no_async'] = bool(mpc.options.no_async)
+    finally:
+        sys.argv = argv
+        for k in [k for k in sys.modules if k == 'mpyc' or k.startswith('mpyc.')]:
+            del sys.modules[k]
+
+
 def traffic_independence(ctx):
     """Two 3-party runs, same seeds and padded lengths, different secret values: identical message-size traces."""
     p = 101
@@ -822,13 +870,17 @@ def traffic_independence(ctx):
                                                'r1': str(r1)[:500], 'r2': str(r2)[:500]})
 
 
-def model_compare(ctx, ok, model_cases):
+def model_compare(ctx, ok, model_cases, powmod_cases=()):
     """Evaluate the Coq model (Z_p instance of SecPoly.v) on the padded inputs; compare the padded outputs exactly."""
     if not ok:
         return
     rng = ctx.rng
     if len(model_cases) > ctx.n(700, 6000):
         model_cases = rng.sample(model_cases, ctx.n(700, 6000))
+    powmod_cases = list(powmod_cases)
+    if len(powmod_cases) > ctx.n(150, 1500):
+        powmod_cases = rng.sample(powmod_cases, ctx.n(150, 1500))
+    model_cases = list(model_cases) + powmod_cases
     exprs = []
     for (op, p, a, b, k, got) in model_cases:
         P, A = zlit(p), zlist(a)
@@ -854,6 +906,9 @@ def model_compare(ctx, ok, model_cases):
             e = 'zsp_rshift %s %s %s' % (P, A, natlit(k))
         elif op == 'truncate':
             e = 'zsp_truncate %s %s %s' % (P, A, natlit(k))
+        elif op == 'powmod':
+            # _powmod as coded, on the normal forms (Gfpx model's mul / mod): compared with the stripped opened result
+            e = 'sp_powmod %s %s %s %s' % (P, zlist(strip(b)), zlist(strip(a)), zlit(k))
         exprs.append(e)
     res = ctx.coq_eval(['MPyC.SecPoly'], exprs, chunk=150)
     mism = 0
@@ -862,9 +917,12 @@ def model_compare(ctx, ok, model_cases):
             r = r % p                 # the secure degree is a field element: -1 is opened as p-1
         if op == 'eq':
             r = int(r) if isinstance(r, bool) else r
+        if op == 'powmod':
+            got = strip(got)
         if r != got:
             mism += 1
             ctx.broken.append({'kind': 'correspondence', 'what': 'SecPoly.' + op, 'case': [p, a, b, k],
                                'model': str(r)[:300], 'impl': str(got)[:300]})
     ctx.extra['traces_validated_against_impl'] = len(exprs) - mism
+    ctx.extra['powmod_model_comparisons'] = len(powmod_cases)
     ctx.log('model/implementation comparisons: %d, disagreements: %d' % (len(exprs), mism))
